@@ -17,14 +17,28 @@ Local Open Scope Z_scope.
    (GMP's gcdext may return a negative cofactor; every use in the code reduces mod p afterwards,
    see RnsToMixedRadix; the theorems are stated for ANY list of reciprocals that satisfies the
    defining congruence, so the sign does not matter.) *)
+(* Division used by the model's Euclid: shift-and-subtract, q bit by bit.  On the extracted inductive Z this costs
+   O((log2 a - log2 b + 1) * log2 a) instead of the O(log2 a * log2 b) of Z.div_eucl, so that Euclid on n-bit
+   operands is O(n^2) and not O(n^3).  Proofs.v: qdiv a b = (a / b, a mod b) for 0 <= a, 0 < b. *)
+Fixpoint qdiv_loop (k : nat) (bs a q : Z) : Z * Z :=           (* bs = b * 2^k *)
+  let a1 := if bs <=? a then a - bs else a in
+  let q1 := if bs <=? a then 2 * q + 1 else 2 * q in
+  match k with
+  | O => (q1, a1)
+  | S k' => qdiv_loop k' (Z.div2 bs) a1 q1
+  end.
+Definition qdiv (a b : Z) : Z * Z :=
+  let k := Z.to_nat (Z.log2 a - Z.log2 b) in
+  qdiv_loop k (Z.shiftl b (Z.of_nat k)) a 0.
+
 Fixpoint egcd_loop (fuel : nat) (r0 r1 s0 s1 : Z) : Z * Z :=
   match fuel with
   | O => (r0, s0)
   | S f => if r1 =? 0 then (r0, s0)
-           else let q := r0 / r1 in egcd_loop f r1 (r0 - q * r1) s1 (s0 - q * s1)
+           else let '(q, r2) := qdiv r0 r1 in egcd_loop f r1 r2 s1 (s0 - q * s1)
   end.
 
-Definition egcd_fuel (p : Z) : nat := S (Z.to_nat (2 * Z.log2_up p)).
+Definition egcd_fuel (p : Z) : nat := S (2 * Z.to_nat (Z.log2_up p)).
 
 Definition invmod (b p : Z) : Z :=
   snd (egcd_loop (egcd_fuel p) p (b mod p) 0 1) mod p.
